@@ -395,7 +395,7 @@ def r3(ctx: Ctx, rep: Report, fams):
 
 
 # ----------------------------------------------------------------------- R4
-TOTAL_CALLS = {"data.find", "data.rfind", "data.startswith", "data.endswith", "struct.unpack_from", "unpack_from", "len", "int.from_bytes", "isinstance", "bool", "FAILURE_CODES.get", "sum", "bytes", "bytearray", "hex", "str", "range"}
+TOTAL_CALLS = {"memoryview", "data.find", "data.rfind", "data.startswith", "data.endswith", "struct.unpack_from", "unpack_from", "len", "int.from_bytes", "isinstance", "bool", "FAILURE_CODES.get", "sum", "bytes", "bytearray", "hex", "str", "range"}
 
 
 def r4(ctx: Ctx, rep: Report, fams):
@@ -553,6 +553,20 @@ def r5(ctx: Ctx, rep: Report):
     rep.analysed_add("functions", tb.qualname)
     # checksum: crc = 0xFFFF; for ch in data: crc = (crc >> 8) ^ T[(crc ^ ch) & 0xFF]; return crc
     body = [s for s in ck.node.body if not (isinstance(s, ast.Expr) and isinstance(s.value, ast.Constant))]
+    # local aliases of module constants (table = _CRC_16_TABLE, hoisted out of the loop) are substituted
+    from ..astutil import subst as _subst_names
+    aliases = {}
+    stores = {}
+    for n in ast.walk(ck.node):
+        if isinstance(n, ast.Name) and isinstance(n.ctx, ast.Store):
+            stores[n.id] = stores.get(n.id, 0) + 1
+    for st in list(body):
+        if isinstance(st, ast.Assign) and len(st.targets) == 1 and isinstance(st.targets[0], ast.Name) and isinstance(st.value, ast.Name) \
+                and stores.get(st.targets[0].id) == 1 and st.value.id not in ck.params and (prog.lookup(mod, st.value.id) or ("",))[0] == "const":
+            aliases[st.targets[0].id] = st.value
+            body.remove(st)
+    if aliases:
+        body = [_subst_names(st, aliases) for st in body]
     init_ok = loop_ok = ret_ok = False
     table_name = None
     if len(body) == 3 and isinstance(body[0], ast.Assign) and isinstance(body[1], ast.For) and isinstance(body[2], ast.Return):
